@@ -18,6 +18,9 @@ LAYOUTS = [
     {'dtypes': {'type': 'int8'}},
     {'dtypes': {'type': 'int32', 'ceilo': 'object'}, 'extra': True},
     {'extra': 'mixed'},
+    {'dtypes': {'height': 'float32'}},
+    {'dtypes': {'dt': 'str', 'height': 'str', 'type': 'str', 'ceilo': 'str'}},          # e.g. a frame built from a 2-D array of strings
+    {'dtypes': {'height': 'object', 'dt': 'object'}},
     {'extra': 'mixed', 'colperm': [6, 0, 3, 1]},
 ]
 
